@@ -793,6 +793,10 @@ def time_and_missing(repo, rep):
 
 
 def run(repo, rep, tier):
+    rep.rule("R-C11-23", "(shared with C18) no writer reads freq / dir / dd / a statistic through the copies SpecDataset made of the efth accessor's attributes at "
+                         "construction: the header / labels written belong to the data written, also after an in-place edit of the dataset")
+    from .round7 import writer_snapshot_reads
+    writer_snapshot_reads(repo, rep, "R-C11-23")
     time_and_missing(repo, rep)
     swan_header_precision(repo, rep)
     swan_nodata_and_chunks(repo, rep)
